@@ -125,10 +125,13 @@ class extract_visitor(NodeVisitor):
         body_start = self.make_flow('for', [cur])
         for nn, _idx in get_indexes_for_target(node.target, [], []):
             if not isinstance(nn, Name):
-                self.visit_in_flow(nn, cur)  # for self.x in ...: / for d[k] in ...:
+                # for self.x in ...: / for k, d[k] in ...: assigned on every
+                # iteration, after the names left of it
+                self.visit_in_flow(nn, body_start)
                 continue
             name = nn  # type: ast.Name
-            body_start.add_name(AssignedName(name.id, body_loc(node.body), np(name), node.iter))
+            loc = name.lineno, name.col_offset + len(name.id)
+            body_start.add_name(AssignedName(name.id, loc, np(name), node.iter))
         body = self.visit_in_flow(node.body, body_start)
         body_start.loop(body)
 
@@ -296,7 +299,7 @@ class extract_visitor(NodeVisitor):
             p = self.make_flow('comp', [p])
             for nn, _idx in get_indexes_for_target(g.target, [], []):
                 if not isinstance(nn, Name):
-                    self.visit_in_flow(nn, pp)
+                    self.visit_in_flow(nn, p)  # [.. for k, d[k] in ..]
                     continue
                 name = nn  # type: ast.Name
                 name.flow = pp  # type: ignore[attr-defined]
@@ -327,18 +330,15 @@ class extract_visitor(NodeVisitor):
         else:
             items = node.items
 
-        for i, it in enumerate(items):
+        for it in items:
             if it.optional_vars:
-                # a target is bound before the next item is evaluated:
-                # with A() as a, B(a) as b: ...
-                if i + 1 < len(items):
-                    loc = np(items[i + 1].context_expr)
-                else:
-                    loc = body_loc(node.body)
+                # a target is bound before the rest of its tuple and the next
+                # item are evaluated: with A() as (a, d[a]), B(a) as b: ...
                 for nn, _idx in get_indexes_for_target(it.optional_vars, [], []):
                     if not isinstance(nn, Name):
                         continue  # with ... as self.x: / with ... as d[k]:
                     name = nn  # type: ast.Name
+                    loc = name.lineno, name.col_offset + len(name.id)
                     self.flow.add_name(AssignedName(name.id, loc, np(name), node))
 
         self.generic_visit(node)
